@@ -162,8 +162,18 @@ class RuntimeV1_0(Runtime):
                 str({k: v for k, v in last_event.items() if k != "type"}),
             )
 
+            # As a safety measure, we stop the processing if we have too many events.
+            if len(new_events) > self.max_events:
+                # If a flow generated by the LLM is involved (e.g., it is too long or it loops),
+                # we drop it and end the turn with the internal error message.
+                if not self._drop_dynamic_flows(events, reason="too many events"):
+                    raise Exception("Too many events.")
+                next_events = self._internal_error_action_result(
+                    "I'm sorry, an internal error has occurred."
+                ).events + [new_event_dict("Listen")]
+
             # If we need to execute an action, we start doing that.
-            if last_event["type"] == "StartInternalSystemAction":
+            elif last_event["type"] == "StartInternalSystemAction":
                 next_events = await self._process_start_action(events)
 
             # If we need to start a flow, we parse the content and register it.
@@ -175,9 +185,19 @@ class RuntimeV1_0(Runtime):
             else:
                 # We need to slide all the flows based on the current event,
                 # to compute the next steps.
-                next_events = await self._compute_next_steps(
-                    events, processing_log=processing_log
-                )
+                try:
+                    next_events = await self._compute_next_steps(
+                        events, processing_log=processing_log
+                    )
+                except Exception as e:
+                    # A flow generated by the LLM can also fail after it was started.
+                    # We drop it and let the remaining flows decide the next steps,
+                    # falling back to a general response if there are none.
+                    if not self._drop_dynamic_flows(events, reason=str(e)):
+                        raise
+                    next_events = await self._compute_next_steps(
+                        events, processing_log=processing_log
+                    ) or [new_event_dict("BotIntent", intent="general response")]
 
                 if len(next_events) == 0:
                     next_events = [new_event_dict("Listen")]
@@ -195,11 +215,25 @@ class RuntimeV1_0(Runtime):
             if next_events[-1]["type"] == "Listen":
                 break
 
-            # As a safety measure, we stop the processing if we have too many events.
-            if len(new_events) > self.max_events:
-                raise Exception("Too many events.")
-
         return new_events
+
+    def _drop_dynamic_flows(self, events: List[dict], reason: str) -> List[str]:
+        """Unregister the dynamic (LLM-generated) flows started in the given history.
+
+        Returns the ids of the flows that were dropped.
+        """
+        flow_ids = []
+        for event in events:
+            if event["type"] != "start_flow":
+                continue
+            flow_config = self.flow_configs.get(event.get("flow_id"))
+            # A dynamic flow begins with the `start_flow` element added by `_process_start_flow`.
+            if flow_config and flow_config.elements[0]["_type"] == "start_flow":
+                flow_ids.append(self.flow_configs.pop(flow_config.id).id)
+
+        if flow_ids:
+            log.warning("Dropped the dynamic flows %s: %s", flow_ids, reason)
+        return flow_ids
 
     async def _compute_next_steps(
         self, events: List[dict], processing_log: List[dict]
